@@ -12,7 +12,8 @@ for log in sys.argv[1:]:
             cur = m.group(1)
             prev = results.get(cur, {})
             results[cur] = dict(property=m.group(2), demo_clean=int(m.group(3)), demo_patched=int(m.group(4)),
-                                tests=m.group(5).strip() or prev.get('tests', ''), checks={})
+                                tests=m.group(5).strip() or prev.get('tests', ''), checks={},
+                                earlier=prev.get('earlier', []) + ([prev['checks']] if prev.get('checks') else []))
             continue
         m = re.match(r'\s+check (\S+) exit=(\d+)\s*(.*)', line)
         if m and cur:
@@ -23,7 +24,9 @@ for sd, r in sorted(results.items()):
         print('NOT CONFIRMED', sd, r)
         continue
     base = os.path.basename(sd)
-    if base.startswith('seed2_'):
+    if base.startswith('seed3_'):
+        name = '%s-r3-%s' % (r['property'], base[len('seed3_'):])
+    elif base.startswith('seed2_'):
         pid_, k_ = base[len('seed2_'):].split('_')
         name = '%s-r2-%s' % (pid_, k_)
     else:
@@ -39,9 +42,13 @@ for sd, r in sorted(results.items()):
             "worktree restored afterwards" % r['property'],
         demo_exit_clean_tree=r['demo_clean'], demo_exit_with_change=r['demo_patched'], test_suite_with_change=r['tests'],
         checks={c: v for c, v in r['checks'].items()})
+    if r.get('earlier'):
+        meta['confirmed_by_me']['earlier_runs_before_strengthening'] = r['earlier']
     json.dump(meta, open(os.path.join(dst, 'meta.json'), 'w'), indent=1)
     det = ', '.join('%s: %s' % (c, {0: 'missed', 1: 'VIOLATION', 2: 'inconclusive', 3: 'harness error'}.get(v['exit'], v['exit']))
                     for c, v in r['checks'].items())
+    if any(v['exit'] != 1 for e in r.get('earlier', []) for v in e.values()):
+        det += ' (missed by the check as it stood when the change arrived)'
     rows.append('| %s | %s | %s | %s |' % (name, meta.get('summary', '')[:160].replace('|', '/').replace('\n', ' '),
                                           meta.get('needs', '')[:140].replace('|', '/').replace('\n', ' '), det))
 print('| seed | change | needs | result of the quick check(s) |\n|---|---|---|---|')
